@@ -17,6 +17,7 @@ import (
 	"reflect"
 	"runtime"
 	"strings"
+	"sync/atomic"
 	"time"
 
 	"github.com/tormoder/fit"
@@ -98,7 +99,46 @@ func errText(err error) string {
 // Run executes op and returns a canonical description of everything the call
 // returned. state, if non-nil, supplies already-built Files so that "encode
 // the same object again" is possible.
-func Run(p *Pool, op Op, files map[int]*fit.File) (res string) {
+// HistoryKinds are the call kinds of sequential histories: OpKinds plus calls
+// that cannot be mixed into concurrent programs.
+var HistoryKinds = append(append([]string{}, OpKinds...), "loggerpanic", "loggerafter")
+
+// Run executes op under a deadline: a call that does not return is an
+// outcome like any other (and differs from every baseline).
+func Run(p *Pool, op Op, files map[int]*fit.File) string {
+	done := make(chan string, 1)
+	go func() { done <- runOp(p, op, files) }()
+	tm := time.NewTimer(20 * time.Second)
+	defer tm.Stop()
+	select {
+	case r := <-done:
+		return r
+	case <-tm.C:
+		return "THE CALL HAS NOT RETURNED after 20 s"
+	}
+}
+
+// switchLogger discards what it is given; when armed, its next Println does
+// not return (it panics), once.
+type switchLogger struct{ armed atomic.Bool }
+
+func (l *switchLogger) Println(v ...interface{}) {
+	if l.armed.CompareAndSwap(true, false) {
+		panic("verif: this logger fails once")
+	}
+}
+func (l *switchLogger) Print(v ...interface{}) { l.Println(v...) }
+func (l *switchLogger) Printf(format string, v ...interface{}) {
+	if l.armed.CompareAndSwap(true, false) {
+		panic("verif: this logger fails once")
+	}
+}
+
+var sharedSwitch = &switchLogger{}
+
+var sharedSwitchOpt = fit.WithLogger(sharedSwitch)
+
+func runOp(p *Pool, op Op, files map[int]*fit.File) (res string) {
 	defer func() {
 		if r := recover(); r != nil {
 			res = fmt.Sprintf("PANIC: %v", r)
@@ -148,6 +188,33 @@ func Run(p *Pool, op Op, files map[int]*fit.File) (res string) {
 			sb.WriteString("--\n")
 		}
 		return sb.String()
+	case "loggerpanic", "loggerafter":
+		// one WithLogger option value kept for the life of the process. In
+		// "loggerpanic" its logger does not return from its first call (it
+		// panics; the caller recovers, as a request handler does);
+		// afterwards the same option value is used again with the logger
+		// behaving.
+		if op.Kind == "loggerpanic" {
+			sharedSwitch.armed.Store(true)
+		}
+		panicked := false
+		var f *fit.File
+		var err error
+		func() {
+			defer func() {
+				if recover() != nil {
+					panicked = true
+				}
+			}()
+			f, err = fit.Decode(bytes.NewReader(p.Bytes[op.Idx]), sharedSwitchOpt)
+		}()
+		sharedSwitch.armed.Store(false)
+		if op.Kind == "loggerpanic" {
+			// and right away the same input with the same option value
+			f2, err2 := fit.Decode(bytes.NewReader(p.Bytes[op.Idx]), sharedSwitchOpt)
+			return fmt.Sprintf("logger-panicked=%v\nthen err=%s\n", panicked, errText(err2)) + digestFile(f2)
+		}
+		return "err=" + errText(err) + "\n" + digestFile(f)
 	case "decodelogger":
 		// a debug logger (its output is discarded; what Decode returns is compared)
 		f, err := fit.Decode(bytes.NewReader(p.Bytes[op.Idx]), fit.WithLogger(log.New(io.Discard, "", 0)))
@@ -224,7 +291,33 @@ func Run(p *Pool, op Op, files map[int]*fit.File) (res string) {
 			ord = binary.BigEndian
 		}
 		err = fit.Encode(w, f, ord)
-		return fmt.Sprintf("err=%s accepted=%s", errText(err), hex.EncodeToString(w.buf.Bytes()))
+		res := fmt.Sprintf("err=%s accepted=%s", errText(err), hex.EncodeToString(w.buf.Bytes()))
+		// the call has returned: the File is the caller's again. It looks at
+		// it, a moment later looks again, then retries on a writer that works
+		snap := func() string {
+			return fmt.Sprintf("crc=%#04x hdr=%v\n", f.CRC, f.Header) + prof.FileValues(f)
+		}
+		first := snap()
+		for i := 0; i < 100; i++ {
+			runtime.Gosched()
+		}
+		time.Sleep(2 * time.Millisecond)
+		if second := snap(); second != first {
+			res += "\nTHE FILE CHANGED AFTER THE FAILED CALL HAD RETURNED (nobody was using it)"
+		}
+		var retry, fresh bytes.Buffer
+		rerr := fit.Encode(&retry, f, ord)
+		if f2, err2 := gen.BuildFile(p.Specs[op.Idx]); err2 == nil && rerr == nil {
+			if fit.Encode(&fresh, f2, ord) == nil && !bytes.Equal(retry.Bytes(), fresh.Bytes()) {
+				res += "\nTHE RETRY ON A WORKING WRITER WROTE OTHER BYTES THAN A FIRST ENCODE OF AN EQUAL FILE"
+			}
+		}
+		crcAfter := f.CRC
+		time.Sleep(2 * time.Millisecond)
+		if f.CRC != crcAfter {
+			res += "\nFile.CRC CHANGED AFTER THE RETRY HAD RETURNED"
+		}
+		return res + fmt.Sprintf("\nretry err=%s", errText(rerr))
 	}
 	return "unknown op"
 }
